@@ -114,6 +114,18 @@ def find_from_impl(F, src, dst):
     return cache.get((norm_ty(src), norm_ty(dst)))
 
 
+def arg_type(s, fi, t, i):
+    """declared type of the i-th argument operand of call terminator t"""
+    try:
+        op = t["args"][i]
+        if op.get("k") in ("copy", "move"):
+            from .sm9 import place_types
+            return place_types(s.frames[fi].body, op["place"])[-1]
+        return op.get("ty")
+    except Exception:
+        return None
+
+
 def model(m, s, fi, t, fk, args, site):
     n = fk.name
     d = fk.d
@@ -306,6 +318,16 @@ def model(m, s, fi, t, fk, args, site):
             if mm2:
                 return Adt(RES, "Ok", [A[0]]) if 0 <= A[0] < (1 << INT_BITS[mm2.group(1)]) else Adt(RES, "Err", [T("TryFromIntError")])
     # ---------------------------------------------------------------- iterators over literal spaces
+    if n in ("iter", "iter_mut", "into_iter") and len(args) == 1 and isinstance(A[0], T) and A[0][0] == "array":
+        return Iter([T("idx", A[0][1], k) for k in range(A[0][2])])
+    if n == "len" and len(args) == 1 and isinstance(A[0], T) and A[0][0] == "array":
+        return A[0][2]
+    if n in ("iter", "iter_mut", "into_iter") and len(args) == 1 and isinstance(A[0], T) and A[0] != TOP:
+        # an opaque fixed-size array (the limbs of a library integer): its elements by index
+        ty = arg_type(s, fi, t, 0)
+        mm = re.search(r"\[[A-Za-z0-9_:]+; (\d+)\]", ty or "")
+        if mm and int(mm.group(1)) <= 64:
+            return Iter([T("idx", A[0], k) for k in range(int(mm.group(1)))])
     if n in ("iter", "iter_mut", "into_iter") and len(args) == 1:
         it = as_iter(m, s, args[0])
         if it is not None:
